@@ -221,7 +221,8 @@ TSAN_ENV = {'TSAN_OPTIONS': 'halt_on_error=0:exitcode=0:report_signal_unsafe=0:h
 
 def check_c03(tier, seed, replay=None):
     v = Verdict('C03', tier, seed)
-    bins = build_many([('h_sched', 'shim'), ('h_sched', 'tsan'), ('h_sched', 'plain')])
+    bins = build_many([('h_sched', 'shim'), ('h_sched', 'tsan'), ('h_sched', 'plain'), ('h_mpi', 'mpi'), ('h_knob', 'plain'), ('h_knob', 'shim'), ('h_sched', 'asan'),
+              ('h_vec', 'valgrind'), ('h_dimacs', 'valgrind'), ('h_parts', 'valgrind'), ('h_exact', 'valgrind')])
     # functional half: deterministic injected schedules
     agg = run_cases(bins[('h_sched', 'shim')], 'c03', seed, T(tier, 300, 5000), opts=dict(max_n=T(tier, 22, 40), schedules=T(tier, 4, 16)), timeout=1800)
     v.absorb(agg)
@@ -247,8 +248,143 @@ def check_c03(tier, seed, replay=None):
                           'ThreadSanitizer sees every synchronisation of the shim (std::thread create/join, atomics); races needing weak hardware ordering are outside its model'])
 
 
-CHECKS = {'C01': check_c01, 'C02': check_c02, 'C03': check_c03, 'C05': check_c05, 'C06': check_c06, 'C08': check_c08, 'C09': check_c09, 'C10': check_c10,
-          'C12': check_c12, 'C13': check_c13, 'C14': check_c14, 'C15': check_c15, 'C16': check_c16, 'C17': check_c17, 'C18': check_c18}
+MPI_RANKS = [1, 2, 3, 4, 5, 7, 8, 16]
+MPI_ENTRIES = ['mcb_sva_signed_mpi', 'mcb_sva_fvs_trees_mpi', 'mcb_sva_fvs_trees_tbb_mpi', 'mcb_sva_iso_trees_mpi', 'mcb_sva_iso_trees_tbb_mpi']
+
+
+def check_c04(tier, seed, replay=None):
+    import mpirun
+    from concurrent.futures import ThreadPoolExecutor
+    v = Verdict('C04', tier, seed)
+    bins = build_many([('h_mpi', 'mpi'), ('h_knob', 'plain'), ('h_knob', 'shim'), ('h_sched', 'asan'),
+              ('h_vec', 'valgrind'), ('h_dimacs', 'valgrind'), ('h_parts', 'valgrind'), ('h_exact', 'valgrind')])
+    b = bins[('h_mpi', 'mpi'), ('h_knob', 'plain'), ('h_knob', 'shim'), ('h_sched', 'asan'),
+              ('h_vec', 'valgrind'), ('h_dimacs', 'valgrind'), ('h_parts', 'valgrind'), ('h_exact', 'valgrind')]
+    agg = lib.Agg()
+    ncases = T(tier, 40, 600); chunk = T(tier, 40, 100); reps = T(tier, 1, 3)
+    jobs = []
+    for rep in range(reps):
+        for P in MPI_RANKS:
+            for a in range(0, ncases, chunk):
+                jobs.append((P, seed + 104729 * rep + P, a, min(a + chunk, ncases)))
+    def one(j):
+        P, sd, a, e = j
+        mpirun.run_mpi_cases(agg, b, sd, P, a, e, dict(max_n=T(tier, 22, 26), layout='mixed'), T(tier, 300, 900), 'h_mpi:P=%d' % P, MPI_ENTRIES)
+    with ThreadPoolExecutor(max_workers=T(tier, 8, 6)) as ex:
+        list(ex.map(one, jobs))
+    v.absorb(agg)
+    perP = {('P=%d' % P): agg.tags.get('P=%d' % P, 0) for P in MPI_RANKS}
+    cov = base_coverage(agg, 'real mpiexec jobs with P in {1,2,3,4,5,7,8,16} ranks (incl. P > number of vertices / candidates / signed edges and P not dividing them); generated graphs with 0-26 vertices incl. empty graph and forests; '
+                        'all ranks build the same graph, 70% of cases under a per-rank scrambling allocator (different edge-property address order per rank), the rest with natural allocation; five MPI entry points per case; '
+                        'oracle: every rank logs RETURN for every call, non-root ranks emit nothing, rank 0 basis valid and == optimum; non-trivial = dimension >= 2, P >= 2 and at least two ranks really held different edge address orders; '
+                        'distinct by (graph hash, P, layout seed)',
+                        dict(rank_counts=MPI_RANKS, cases_per_rank_count=perP, executions=agg.evaluations * 5, cases_where_ranks_held_different_layouts=agg.tags.get('ranks_hold_different_layouts', 0),
+                             scrambled_cases=agg.tags.get('layout:scrambled', 0), natural_cases=agg.tags.get('layout:natural', 0)))
+    return v.finish(cov, ['single host, OpenMPI shared-memory transport', 'termination is judged by a %d s watchdog per job with one automatic re-run' % T(tier, 300, 900)])
+
+
+def check_c11(tier, seed, replay=None):
+    import demos
+    return demos.check_c11(tier, seed)
+
+
+def check_c20(tier, seed, replay=None):
+    import demos
+    return demos.check_c20(tier, seed)
+
+
+def check_c07(tier, seed, replay=None):
+    """sanitizer verdicts only: functional violations of the same runs belong to their own properties"""
+    import demos as demos_mod, random, tempfile, shutil, dimacs_gen
+    v = Verdict('C07', tier, seed)
+    bins = build_many([('h_exact', 'asan'), ('h_approx', 'asan'), ('h_parts', 'asan'), ('h_vec', 'asan'), ('h_dimacs', 'asan'), ('h_sched', 'asan'), ('h_sched', 'tsan'),
+                       ('h_vec', 'valgrind'), ('h_dimacs', 'valgrind'), ('h_parts', 'valgrind'), ('h_exact', 'valgrind')])
+    sd = seed + 7000003
+    plan = [  # (harness, mode, quick cases, thorough cases, opts)
+        ('h_exact', 'c01', 250, 4000, dict(max_n=T(tier, 24, 40))),
+        ('h_exact', 'c02', 120, 2000, dict(max_n=T(tier, 20, 32))),
+        ('h_sched', 'c03real', 60, 1200, dict(max_n=T(tier, 18, 26), schedules=1)),
+        ('h_approx', 'c05', 200, 3000, dict(max_n=T(tier, 18, 30), deref=1)),
+        ('h_approx', 'c06', 100, 2000, dict(max_n=T(tier, 18, 30))),
+        ('h_approx', 'c15', 150, 3000, dict(max_n=T(tier, 20, 30))),
+        ('h_parts', 'c12', 80, 1500, dict(max_n=T(tier, 12, 20))),
+        ('h_parts', 'c13', 300, 6000, dict(max_n=80)),
+        ('h_parts', 'c14', 100, 2000, dict(max_n=T(tier, 16, 24))),
+        ('h_parts', 'c16', 500, 20000, dict(max_n=40)),
+        ('h_vec', 'c17', 1500, 60000, {}),
+        ('h_vec', 'c18gcd', 160, 2000, {}),
+        ('h_vec', 'c18inv', 120, 1500, {}),
+        ('h_vec', 'c18prime', 30, 260, dict(blocks=T(tier, 20, 200), cpp_blocks=T(tier, 2, 20))),
+        ('h_vec', 'c18vec', 1500, 60000, {}),
+        ('h_dimacs', 'c10', 3000, 100000, {}),
+    ]
+    per = {}
+    total = lib.Agg()
+    for h, mode, q, t, opts in plan:
+        a = run_cases(bins[(h, 'asan')], mode, sd, T(tier, q, t), opts=opts, env=ASAN_ENV, source='%s(asan+ubsan+lsan):%s' % (h, mode), timeout=1800)
+        v.absorb(a, functional=False)
+        per['%s:%s' % (h, mode)] = dict(cases=a.evaluations, sanitizer_reports=len(a.sanitizer_reports), crashes=len(a.crashes))
+        total.evaluations += a.evaluations; total.hashes |= {('%s:%s' % (mode, x)) for x in a.hashes}; total.all_hashes |= {('%s:%s' % (mode, x)) for x in a.all_hashes}; total.tags.update({k: n for k, n in a.tags.items() if k.startswith(('forest', 'fam:empty', 'fam:single', 'fam:edgeless', 'disconnected', 'k='))})
+        total.samples += a.samples[:1]
+    # multi-threaded half: instrumented scheduler on real threads under ThreadSanitizer
+    at = run_cases(bins[('h_sched', 'tsan')], 'c03t', sd, T(tier, 32, 400), opts=dict(max_n=T(tier, 14, 20), schedules=T(tier, 1, 2)), env=TSAN_ENV, timeout=3600, source='h_sched(tsan):c03t', chunk=T(tier, 2, 8))
+    v.absorb(at, functional=False)
+    per['h_sched:c03t(tsan)'] = dict(cases=at.evaluations, sanitizer_reports=len(at.sanitizer_reports), crashes=len(at.crashes))
+    total.evaluations += at.evaluations
+    # valgrind memcheck for uninitialised-value use (ASan does not see it)
+    vg = ['valgrind', '--quiet', '--error-exitcode=97', '--track-origins=no', '--leak-check=no', '--undef-value-errors=yes']
+    for h, mode, q, t, opts in [('h_vec', 'c18gcd', 135, 400, {}), ('h_vec', 'c18vec', 120, 2000, {}), ('h_vec', 'c17', 100, 2000, {}), ('h_dimacs', 'c10', 300, 6000, {}), ('h_parts', 'c13', 40, 600, dict(max_n=40)),
+                                ('h_parts', 'c16', 60, 1000, dict(max_n=30)), ('h_exact', 'c01', 16, 200, dict(max_n=12))]:
+        a = run_cases(bins[(h, 'valgrind')], mode, sd + 5, T(tier, q, t), opts=opts, wrapper=vg, source='%s(memcheck):%s' % (h, mode), timeout=3600)
+        for c in a.crashes:
+            if c['rc'] == 97:
+                a.sanitizer_reports.append(dict(kind='memcheck:error', parmcb_frame='parmcb' in c['stderr_tail'], inner=(re_first(r'(parmcb::[\w:]+)', c['stderr_tail']) or ''), text=c['stderr_tail'], idx=c['idx'], source=c['source']))
+        a.crashes = [c for c in a.crashes if c['rc'] != 97]
+        v.absorb(a, functional=False)
+        per['%s:%s(memcheck)' % (h, mode)] = dict(cases=a.evaluations, reports=len(a.sanitizer_reports), crashes=len(a.crashes))
+        total.evaluations += a.evaluations
+    # the demo programs built with ASan+UBSan by the tree's own CMake
+    demo_stats = dict(launches=0, reports=0)
+    try:
+        dem = lib.ensure_demos('asan', ['mcb-dimacs', 'approx-mcb-dimacs', 'collection-stats-dimacs'])
+        tmp = tempfile.mkdtemp(prefix='c07-', dir=lib.tree_dir())
+        rng = random.Random(seed)
+        env = dict(os.environ); env.update(ASAN_ENV)
+        for i in range(T(tier, 8, 120)):
+            n, edges = dimacs_gen.gen_valid(rng, max_n=20)
+            pth = os.path.join(tmp, 'f%d.dimacs' % i)
+            if i % 4 == 3:
+                n2, toks, kinds = dimacs_gen.make_invalid(rng, n, edges); dimacs_gen.write_dimacs(pth, n2, toks, rng, trailing_newline=rng.random() < 0.5)
+            else:
+                dimacs_gen.write_dimacs(pth, n, [(a_, b_, str(c_)) for a_, b_, c_ in edges], rng, trailing_newline=rng.random() < 0.5)
+            for prog in dem:
+                af, an = demos_mod.algo_flags(rng) if prog != 'collection-stats-dimacs' else ([], '')
+                extra = ['--printcycles=true', '--parallel=%s' % rng.choice(['true', 'false'])] if prog != 'collection-stats-dimacs' else []
+                r = demos_mod.run_proc([dem[prog]] + af + extra + [pth], 300, env=env); demo_stats['launches'] += 1
+                for rep in lib.classify_stderr(r['err']):
+                    rep['idx'] = i; rep['source'] = 'demo(asan):' + prog; rep['parmcb_frame'] = rep['parmcb_frame'] or ('/src/' in rep['text'])
+                    demo_stats['reports'] += 1
+                    v.add('sanitizer:%s:%s' % (rep['kind'], rep.get('inner', '')[:60]), dict(key=rep['kind'], detail='sanitizer report in demo program ' + prog, idx=i, source=rep['source'], observed=dict(report=rep['text'], file=open(pth).read()[:800])))
+        shutil.rmtree(tmp, ignore_errors=True)
+    except HarnessFailure as e:
+        v.failures.append(str(e)[:1500])
+    cov = base_coverage(total, 'the workloads of C01, C02, C03 (real oneTBB), C05 (with every returned descriptor dereferenced through the caller\'s weight map after return), C06, C10, C12-C18 repeated on builds with '
+                        '-fsanitize=address,undefined -fno-sanitize-recover=all, _GLIBCXX_ASSERTIONS and the library\'s own asserts enabled, leak detection on; the C03 threaded workload under -fsanitize=thread on the '
+                        'instrumented scheduler; valgrind memcheck slices for uninitialised-value use; the demo programs built with ASan+UBSan by the tree\'s CMake on generated valid and invalid files. Deciding observation: '
+                        'zero reports. Generators include the empty graph, single vertex, edgeless graphs, forests, disconnected graphs, k=1 and k>=n. non-trivial/distinct = per-workload rule of the originating property, keyed by workload',
+                        dict(per_workload=per, demo_asan=demo_stats, sanitizer_families=['address+undefined+leak', 'thread (shim)', 'memcheck']))
+    return v.finish(cov, ['red-zone tools miss intra-object and far out-of-bounds accesses', 'references to temporaries of the stateless vertex-index map are never dereferenced for vecS graphs and therefore unobservable',
+                          'races inside the prebuilt libtbb.so are out of scope (TSan runs on the shim only)'])
+
+
+def re_first(pat, text):
+    import re
+    m = re.search(pat, text or '')
+    return m.group(1) if m else None
+
+
+CHECKS = {'C01': check_c01, 'C02': check_c02, 'C03': check_c03, 'C04': check_c04, 'C05': check_c05, 'C06': check_c06, 'C07': check_c07, 'C08': check_c08, 'C09': check_c09, 'C10': check_c10, 'C11': check_c11,
+          'C12': check_c12, 'C13': check_c13, 'C14': check_c14, 'C15': check_c15, 'C16': check_c16, 'C17': check_c17, 'C18': check_c18, 'C20': check_c20}
 
 
 def main():
@@ -282,7 +418,8 @@ def main():
 
 ALL_BUILDS = [('h_exact', 'plain'), ('h_exact', 'asan'), ('h_approx', 'plain'), ('h_approx', 'asan'), ('h_parts', 'plain'), ('h_parts', 'asan'),
               ('h_vec', 'plain'), ('h_vec', 'asan'), ('h_dimacs', 'plain'), ('h_dimacs', 'asan'),
-              ('h_sched', 'shim'), ('h_sched', 'tsan'), ('h_sched', 'plain')]
+              ('h_sched', 'shim'), ('h_sched', 'tsan'), ('h_sched', 'plain'), ('h_mpi', 'mpi'), ('h_knob', 'plain'), ('h_knob', 'shim'), ('h_sched', 'asan'),
+              ('h_vec', 'valgrind'), ('h_dimacs', 'valgrind'), ('h_parts', 'valgrind'), ('h_exact', 'valgrind')]
 
 
 def build_all():
@@ -290,7 +427,11 @@ def build_all():
     try:
         os.chdir(lib.VERIF)
         lib.prune_cache()
-        build_many([p for p in ALL_BUILDS if os.path.exists(os.path.join(lib.VERIF, 'harness', p[0] + '.cpp'))])
+        from concurrent.futures import ThreadPoolExecutor
+        with ThreadPoolExecutor(max_workers=2) as ex:
+            fd = ex.submit(lambda: (lib.ensure_demos('rel'), lib.ensure_demos('asan', ['mcb-dimacs', 'approx-mcb-dimacs', 'collection-stats-dimacs'])))
+            build_many([p for p in ALL_BUILDS if os.path.exists(os.path.join(lib.VERIF, 'harness', p[0] + '.cpp'))])
+            fd.result()
         return 0
     except HarnessFailure as e:
         print(str(e)[:4000]); return 2
